@@ -220,8 +220,18 @@ func runOne(ctx context.Context, sp solverSpec, file string, timeoutS int) Solve
 		res.Status = "unsat"
 	case "sat":
 		res.Status = "sat"
-		if i := strings.Index(raw, "\n"); i >= 0 {
-			res.Model = raw[i+1:]
+		// fetch the counterexample from the same solver configuration
+		if data, err := os.ReadFile(file); err == nil && !strings.Contains(string(data), "(get-model)") {
+			mf := file + ".model"
+			os.WriteFile(mf, append(data, []byte("(get-model)\n")...), 0o644)
+			margv := sp.argv(mf, timeoutS)
+			mctx, mcancel := context.WithTimeout(context.Background(), time.Duration(timeoutS+2)*time.Second)
+			mout, _ := exec.CommandContext(mctx, margv[0], margv[1:]...).Output()
+			mcancel()
+			os.Remove(mf)
+			if i := strings.Index(string(mout), "\n"); i >= 0 && strings.HasPrefix(string(mout), "sat") {
+				res.Model = string(mout)[i+1:]
+			}
 		}
 	case "unknown":
 		res.Status = "unknown"
